@@ -43,6 +43,11 @@ RULE = ('binary and length matrices, directed and undirected, n=1..8: exhaustive
         'through distance_bin, distance_wei (D and hop counts), distance_wei_floyd (SPL and hops), breadthdist, reachdist, efficiency_bin, efficiency_wei, charpath: two instances per '
         'quick run, ten in the thorough tier = the escalated pass on a changed tree (run FIRST there); K50 + chain of 183 + 2-node component (thorough: also K64 + one-way chain of 185), '
         '(k-1)^chain > 1.8e308 (beyond binary64), through distance_bin / efficiency_bin / reachdist on the arrays as built (the defects it found are repaired: aa68b44, 3281ffb). '
+        'DIRECTED WEIGHTS ON A SYMMETRIC SUPPORT (a random state of its own; `weighted` gives an undirected matrix whenever the pattern is symmetric, so the class was missing): every connection reciprocated with the '
+        'two directions drawn independently from dyadic weights 2^-k (forced to differ on a pair), complete asymmetric weight matrices, and mixtures with a few one-way connections, n = 2..7 on the structured families + the witnesses '
+        '[[0,1],[1/4,0]] and a complete 4-node matrix (62 matrices quick, ~360 thorough); each goes through distance_wei / distance_wei_floyd / rout_efficiency / charpath (as integer lengths 2^k), '
+        'distance_wei_floyd[inv], rout_efficiency[inv], efficiency_wei global (False and \'global\') with exact lengths, distance_wei_floyd[log] / rout_efficiency[log], all with their model lines, and '
+        'efficiency_wei local=True / \'original\' against the documented formulas evaluated on the exact-h distances inside each neighbourhood (oracle only). '
         'non-trivial = at least one finite off-diagonal distance; distinct by hash of (kind, matrix)')
 ASSUMES = ['the theorems are over exact rationals: on lengths that are NOT exact in binary64 (1/3, k*ln 2) rounding can separate exactly tied alternatives — one known finding (edge-count-tie) lives exactly there',
            'lengths are small integers or dyadic rationals, so every sum/comparison the model treats as exact is exact in binary64; '
@@ -813,6 +818,112 @@ def do_weighted_support(ctx, bct, W, fam, B_, with_model=True):
         B_.add('reachdist ' + enc_mat(M), 'rd', case, (np.asarray(Rr), Dr))
 
 
+# ---------------------------------------------------------------- directed weights on a symmetric support
+RECIP_MODES = ('reciprocated', 'complete', 'mixed')
+
+
+def weighted_recip(r, A, vals, mode):
+    """A DIRECTED weighted matrix whose support is (largely) symmetric - the class `weighted` never produces (it gives an
+    undirected matrix whenever the pattern is symmetric).  'reciprocated': every connection of A present in both directions,
+    'complete': every ordered pair connected, 'mixed': the reciprocated matrix plus/minus a few one-way connections.  The two
+    directions of a pair are drawn independently from `vals` and made to differ on at least one pair (so the matrix is never
+    undirected unless it has no connection or a single value to draw from)."""
+    n = len(A)
+    if mode == 'complete':
+        S = [[int(i != j) for j in range(n)] for i in range(n)]
+    else:
+        S = [[int(i != j and (A[i][j] != 0 or A[j][i] != 0)) for j in range(n)] for i in range(n)]
+    W = [[(vals[int(r.randint(len(vals)))] if S[i][j] else 0) for j in range(n)] for i in range(n)]
+    pairs = [(i, j) for i in range(n) for j in range(i + 1, n) if S[i][j]]
+    if pairs and len(vals) > 1 and all(W[i][j] == W[j][i] for i, j in pairs):
+        i, j = pairs[int(r.randint(len(pairs)))]
+        W[j][i] = [v for v in vals if v != W[i][j]][0]
+    if mode == 'mixed' and n >= 3:
+        for _ in range(1 + int(r.randint(2))):
+            i, j = int(r.randint(n)), int(r.randint(n))
+            if i != j:
+                W[i][j] = 0 if W[i][j] != 0 else vals[int(r.randint(len(vals)))]     # a one-way connection appears / one direction is dropped
+    return W
+
+
+def eloc_wei_oracle(W, variant):
+    """efficiency_wei(W, local=True) (Wang et al. 2016) and local='original' (Rubinov & Sporns 2010) as documented, on the
+    TRUE distances (exact-h oracle) inside the neighbourhood of each node: lengths (1/w)^(1/3) resp. 1/w; pairs of neighbours
+    weighted by the cube roots of the connections to the node, both directions summed."""
+    n = len(W)
+    cr = lambda x: float(x) ** (1.0 / 3)
+    out = []
+    for u in range(n):
+        V = [v for v in range(n) if W[u][v] != 0 or W[v][u] != 0]
+        k = len(V)
+        if variant == 'local':
+            L = [[(cr(F(1) / F(W[a][b])) if W[a][b] != 0 else 0) for b in V] for a in V]
+        else:
+            L = [[(F(1) / F(W[a][b]) if W[a][b] != 0 else 0) for b in V] for a in V]
+        d = dist_from_E(exact_h(L)) if k else []
+        e = [[(0.0 if (i == j or d[i][j] == INF) else 1.0 / float(d[i][j])) for j in range(k)] for i in range(k)]
+        if variant == 'local':
+            se = [[e[i][j] + e[j][i] for j in range(k)] for i in range(k)]
+        else:
+            se = [[cr(e[i][j]) + cr(e[j][i]) for j in range(k)] for i in range(k)]
+        sw = [cr(W[u][v]) + cr(W[v][u]) for v in V]
+        numer = sum(sw[i] * sw[j] * se[i][j] for i in range(k) for j in range(k)) / 2
+        sa = [int(W[u][v] != 0) + int(W[v][u] != 0) for v in V]
+        denom = sum(sa) ** 2 - sum(x * x for x in sa)
+        out.append(numer / denom if numer != 0 else 0.0)
+    return out
+
+
+def do_recip(ctx, bct, W, mode, B_):
+    """W: directed dyadic weights 2^-k (exact lengths 1/w, exact -log2) on a symmetric / complete / nearly symmetric support.
+    Every weighted clause is run on it: the weights read as LENGTHS (distance_wei, distance_wei_floyd, rout_efficiency, charpath),
+    as weights under 'inv' (distance_wei_floyd, rout_efficiency, efficiency_wei global) and under 'log', and efficiency_wei
+    local / 'original' against eloc_wei_oracle.  Model lines are added by the do_* routines as for every other matrix."""
+    n = len(W)
+    pairs = [(i, j) for i in range(n) for j in range(i + 1, n)]
+    symsup = all((W[i][j] != 0) == (W[j][i] != 0) for i, j in pairs)
+    asym = any(W[i][j] != W[j][i] for i, j in pairs)
+    ctx.count('recip:' + mode)
+    if symsup and asym:
+        ctx.count('recip:symmetric-support+different-reciprocal-weights')
+    Lint = [[(int(F(1) / F(x)) if x != 0 else 0) for x in row] for row in W]       # 2^k: integer lengths, asymmetric as well
+    do_weighted(ctx, bct, Lint, 'recip-' + mode, B_)
+    do_inv(ctx, bct, W, 'recip-' + mode, B_, exact=True)
+    do_log(ctx, bct, W, 'recip-' + mode, B_)
+    if n >= 2:
+        Wn = npm(W)
+        case = {'kind': 'weights-local-efficiency', 'W': [[str(x) for x in row] for row in W]}
+        ctx.case(case, nontrivial=any(x != 0 for row in W for x in row))
+        for variant, arg in (('local', True), ('original', 'original')):
+            with np.errstate(all='ignore'):
+                El = np.asarray(call(bct.efficiency_wei, Wn.copy(), arg), dtype=float).ravel()
+            want = eloc_wei_oracle(W, variant)
+            ok = El.shape == (n,) and all(fclose(El[u], want[u]) for u in range(n))
+            ctx.check(ok, 'efficiency_wei[local=%r]:neighbourhood-mean-inverse' % (arg,),
+                      'returned %s, the definition on the true distances inside each neighbourhood gives %s' % (El.tolist(), want), case)
+        # the global value again under the spelling 'global' (same branch, other argument)
+        dist = dist_from_E(exact_h([[(F(1) / F(x) if x != 0 else 0) for x in row] for row in W]))
+        eff = mean_clauses(ctx, dist, n)[2]
+        eg = call(bct.efficiency_wei, Wn.copy(), 'global')
+        ctx.check(fclose(eg, eff), 'efficiency_wei:mean-inverse', "efficiency_wei(W, 'global') returned %r, mean inverse distance over ORDERED pairs (lengths 1/w) %s"
+                  % (float(eg), eff), case)
+
+
+def recip_families(ctx, bct, B_):
+    """pinned smallest witnesses, then every mode on the structured families of n = 2..7 (a random state of its own)"""
+    r = stress_rng(ctx, salt=2)
+    do_recip(ctx, bct, [[0, F(1)], [F(1, 4), 0]], 'reciprocated', B_)                       # 1.0 vs 0.625 if the better direction is taken twice
+    do_recip(ctx, bct, [[0, F(1), F(1, 2), F(1, 4)], [F(1, 2), 0, F(1, 4), F(1)], [F(1, 4), F(1), 0, F(1, 2)], [F(1), F(1, 4), F(1, 2), 0]], 'complete', B_)
+    VALS = [[F(1), F(1, 2), F(1, 4)], [F(1), F(1, 4), F(1, 8)], [F(1, 2), F(1, 8)], [F(1), F(1, 2), F(1, 4), F(1, 8)]]
+    for rep in range(ctx.scale(2, 10)):
+        for n in range(2, 8):
+            fams = families(type('R', (), {'nprng': r})(), n)
+            pick = [fams[int(k)] for k in r.choice(len(fams), min(len(fams), ctx.scale(5, 12)), replace=False)]
+            for k, (fam, A) in enumerate(pick):
+                mode = RECIP_MODES[(k + rep + n) % 3]
+                do_recip(ctx, bct, weighted_recip(r, A, VALS[int(r.randint(len(VALS)))], mode), mode, B_)
+
+
 # ---------------------------------------------------------------- breadth (both outputs), larger n with the oracle only
 def check_breadth(ctx, bct, A, An, dist, case):
     """breadth(CIJ, source) called directly: the distance vector (0 at the source, or the shortest cycle through it) and the
@@ -1376,6 +1487,8 @@ def run(ctx):
         do_log(ctx, bct, [[F(x) for x in row] for row in Wt], 'witness', B_)
     for Wt in WITNESS_INV:
         do_inv(ctx, bct, [[F(x) for x in row] for row in Wt], 'witness', B_, exact=False)
+    # 2c. directed weights on a symmetric / complete / nearly symmetric support (every connection reciprocated, the two directions differ)
+    recip_families(ctx, bct, B_)
     # 3. self-connections (separate stream)
     for rep in range(ctx.scale(40, 300)):
         n = int(r.randint(2, 6))
